@@ -571,11 +571,15 @@ class Tokenizer:
                 try:
                     ret = IntegerToken(operand, int(operand), self._offset)
                 except ValueError:
-                    # Maybe it is a float?
-                    try:
-                        ret = FloatToken(operand, float(operand), self._offset)
-                    except ValueError:
+                    # Maybe it is a float? (but not a word: float() also accepts "nan", "inf", and "infinity", which would
+                    # turn identifiers of that name into literals)
+                    if operand[0].isalpha() or operand[0] == '_':
                         ret = IdentifierToken(operand, self._offset)
+                    else:
+                        try:
+                            ret = FloatToken(operand, float(operand), self._offset)
+                        except ValueError:
+                            ret = IdentifierToken(operand, self._offset)
         elif ret is not None:
             self._pop_byte(len(ret))
         return ret
